@@ -72,6 +72,7 @@ func mcPlan() []*mcRun {
 		{module: "OuterCancel", cfg: ev.Pick("MC_outer_small.cfg", "MC_outer_big.cfg")},
 		{module: "OuterCancel", cfg: "MC_outer_small_shutdown.cfg"},
 		{module: "OuterCancel", cfg: "MC_outer_defect_erradmit.cfg", expect: "outer-writer-delayed-with-nothing-held"},
+		{module: "OuterCancel", cfg: "MC_outer_defect_delete_every.cfg", expect: "-after-grace"},
 		{module: "OuterCancel", cfg: "MC_outer_defect.cfg", expect: "outer-reader-cancelled-before-grace-since-writer-asked"},
 	}
 	if ev.Thorough() {
@@ -363,6 +364,22 @@ func outerScenarios(rng *rand.Rand) []scenario {
 		S("staged:reader-cancelled-during-the-call-then-lone-writer", NW(R("hold", 2)), PC(1), A(10), W(5), A(3*G))
 		S("staged:two-readers-cancelled-during-the-call-then-lone-writer", NW(R("hold", 2)), NW(R("hold", 3)), NW(PC(1)), PC(2), A(10), W(5), A(3*G))
 	}
+	// the release func called twice; ids of the reader registry are reused after a writer: reader A (released, or
+	// told to stop by writer W1) calls its release func (again) only after a later reader B was admitted; writer W2 must
+	// still cancel B after the grace period and be granted
+	T2 := func(o ostep) ostep { o.Twice = true; return o }
+	AG := func(o ostep, d int) ostep { o.Again = d; return o }
+	for _, bk := range []ostep{R("grace", 0), R("late", 7), R("hold", 4*G)} {
+		// A releases only long after W1 told it to stop (its first own call is already the second run of the release)
+		S("staged:late-release-of-a-cancelled-reader-after-a-later-reader", R("late", 3*G), A(5), W(10), A(G+20), bk, A(3*G), W(5), A(3*G))
+		S("staged:late-release-of-a-cancelled-reader-after-a-later-reader", T2(R("late", 3*G)), A(5), W(10), A(G+20), bk, A(3*G), W(5), A(2*G), W(5), A(3*G))
+		// A releases early and calls the release func again after W1 and B
+		S("staged:second-release-call-after-a-later-reader", AG(R("hold", 5), G+40), A(10), W(5), A(20), bk, A(G+30), W(5), A(3*G))
+		S("staged:second-release-call-after-a-later-reader", AG(T2(R("hold", 5)), G+40), R("hold", 8), A(10), W(5), A(20), bk, R("grace", 0), A(G+30), W(5), A(2*G), W(5), A(3*G))
+		// told to stop by W1, releases at once, second call later
+		S("staged:second-release-call-of-a-cancelled-reader", AG(R("grace", 0), G+40), A(5), W(10), A(G+20), bk, A(G), W(5), A(3*G))
+	}
+	S("staged:release-called-twice-at-once", T2(R("hold", 5)), T2(R("grace", 0)), A(10), W(5), A(2*G), T2(R("grace", 0)), A(5), W(5), A(3*G))
 	durs := []int{0, 1, 5, G / 2, G - 1, G, G + 1, 2 * G}
 	for i := 0; i < ev.Pick(300, 4000); i++ {
 		var st []ostep
@@ -373,7 +390,14 @@ func outerScenarios(rng *rand.Rand) []scenario {
 			switch k := rng.Intn(20); {
 			case k < 7:
 				kinds := []string{"hold", "hold", "grace", "grace", "late", "precancelled"}
-				st = append(st, R(kinds[rng.Intn(len(kinds))], durs[rng.Intn(len(durs))]))
+				o := R(kinds[rng.Intn(len(kinds))], durs[rng.Intn(len(durs))])
+				switch rng.Intn(6) {
+				case 0:
+					o.Twice = true
+				case 1, 2:
+					o.Again = []int{G / 2, G, 2 * G, 3 * G}[rng.Intn(4)]
+				}
+				st = append(st, o)
 				acq++
 			case k < 11:
 				st = append(st, W(durs[rng.Intn(len(durs))]))
@@ -598,6 +622,8 @@ var whyText = map[string]string{
 	"panic":                                                          "a lock operation panicked",
 	"crash":                                                          "a lock operation killed the process (fatal runtime error)",
 	"outer-writer-delayed-with-nothing-held":                         "outer-cancel: a writer that found nothing held and nothing in flight was not granted at once (an acquisition that reported an error, or a released one, still holds something)",
+	"outer-reader-not-told-to-stop-after-grace":                      "outer-cancel: the grace period after a writer's Lock call (no other writer around) has passed and an earlier reader has neither released nor been told to stop; the writer keeps waiting",
+	"outer-writer-not-granted-after-grace":                           "outer-cancel: a writer (no other writer around) is not granted although the grace period after its Lock call has passed",
 	"outer-reader-admitted-while-writer-holds":                       "outer-cancel: a reader was admitted before the writer unlocked",
 	"outer-writer-granted-before-reader-released-or-cancelled":       "outer-cancel: a writer was granted while an earlier reader had neither released nor been cancelled",
 	"outer-reader-cancelled-before-grace-since-writer-asked":         "outer-cancel: a reader's context was cancelled earlier than the grace period after the writer's Lock call",
